@@ -196,6 +196,11 @@ def run_case(cid, A, rng, tier):
             op('one_point_interpolation', interp.one_point_interpolation, A, S, s)
             for d in (1, 2):
                 op('local_air/%d' % d, interp.local_air, A, s, theta=0.05, norm='abs', degree=d)
+                # the dense GMRES path, with fewer iterations than the local neighbourhood has unknowns and with as many
+                for mi in (1, 2, 10):
+                    for pc in (True, False):
+                        op('local_air/gmres/%d/maxiter=%d' % (d, mi), interp.local_air, A, s, theta=0.05, norm='abs', degree=d,
+                           use_gmres=True, maxiter=mi, precondition=pc)
     np.random.seed(2)
     op('CR', CR, Aspd, method='habituated', maxiter=3)
     op('CR/concurrent', CR, Aspd, method='concurrent', maxiter=3)
@@ -316,6 +321,9 @@ def run_case(cid, A, rng, tier):
         spl_b[::2] = 1
         for d in (1, 2):
             op('local_air/bsr/bs=%d' % bs, interp.local_air, Ab, spl_b, theta=0.05, norm='abs', degree=d)
+            for mi in (1, 3):
+                op('local_air/bsr/gmres/bs=%d/maxiter=%d' % (bs, mi), interp.local_air, Ab, spl_b, theta=0.05, norm='abs', degree=d,
+                   use_gmres=True, maxiter=mi, precondition=(mi == 3))
         op('evolution_strength/bsr/bs=%d' % bs, st.evolution_strength_of_connection, Ab, B=np.ones((n, 1)), epsilon=4.0, k=2)
         op('classical_strength/bsr', st.classical_strength_of_connection, Ab, theta=0.25)
         op('symmetric_strength/bsr', st.symmetric_strength_of_connection, Ab, theta=0.1)
